@@ -165,6 +165,9 @@ class ReverseLT(Generic[LT]):
     def __lt__(self, other: ReverseLT[LT]) -> bool:
         return other.key < self.key
 
+    def __eq__(self, other: ReverseLT[LT]) -> bool:  # type: ignore[override]
+        return not (self.key < other.key or other.key < self.key)
+
 
 # Python's heapq provides a *min*-heap
 # When finding the n largest items, heapq tracks the *minimum* item still large enough.
@@ -178,8 +181,9 @@ async def _largest(
 ) -> "list[T]":
     ordered: Callable[[LT], LT] = ReverseLT if reverse else lambda x: x  # type: ignore
     async with ScopedIter(iterable) as iterator:
-        # assign an ordering to items to solve ties
-        order_sign = -1 if reverse else 1
+        # assign an ordering to items to solve ties: the heap is sorted descending in the
+        # end, so earlier items need the larger index to come first among equal keys
+        order_sign = -1
         n_heap = [
             (ordered(await key(item)), index * order_sign, item)
             async for index, item in a_zip(range(n), borrow(iterator))
